@@ -865,12 +865,23 @@ func (env *Environment) runTasksAsHooks(hooksToTrigger task.Tasks) (errorMap map
 	}
 
 	doneCh := make(chan struct{})
+	stopCh := make(chan struct{}) // closed when the hooks could not be triggered: there is nothing to collect
 
 	go func() {
 		successfulHooks := make(task.Tasks, 0)
 
 		for {
 			select {
+			case <-stopCh:
+				// We must not stay behind: a collector that outlives its round would take the reports meant for
+				// the hooks of later rounds away from them.
+				for tid, timer := range hookTimers {
+					timer.Stop()
+					delete(hookTimers, tid)
+				}
+				doneCh <- struct{}{}
+				return
+
 			case tid := <-timeoutCh:
 				log.WithField("taskId", tid).Debug("incoming hook timeout")
 				thisHook := hooksToTrigger.GetByTaskId(tid)
@@ -984,13 +995,10 @@ func (env *Environment) runTasksAsHooks(hooksToTrigger task.Tasks) (errorMap map
 
 	err := env.hookHandlerF(hooksToTrigger)
 	if err != nil {
+		close(stopCh)
+		<-doneCh // the collector has stopped the timers and is gone
 		for _, h := range hooksToTrigger {
 			errorMap[h] = err
-			timer, ok := hookTimers[h.GetTaskId()]
-			if ok {
-				timer.Stop()
-				delete(hookTimers, h.GetTaskId())
-			}
 		}
 		return
 	}
